@@ -22,7 +22,7 @@ from . import rslex
 from .rslex import ExtractError
 
 VERIF = os.path.dirname(os.path.dirname(os.path.abspath(__file__)))
-CACHE = os.path.join(VERIF, ".cache", "kani-target")
+CACHE = os.environ.get("VC_CACHE") or os.path.join(VERIF, ".cache", "kani-target")
 SHIM = os.path.join(VERIF, "shims", "tracing-noop")
 
 
@@ -304,5 +304,9 @@ def playback(scratch, harness_name, log_dir, jobs=1, timeout=1800):
         o = "native playback timed out"
     keep = [l for l in o.split("\n") if re.search(r"panicked|test result|^test |assert|FAILED|failures|error\[", l)]
     out["native_output"] = "\n".join(keep[-60:]) if keep else o[-3000:]
-    out["reproduced"] = bool(re.search(r"test result: FAILED|panicked at", o))
+    # a panic raised by Kani's own playback driver (it ran out of recorded values because the native run took a
+    # different path than the symbolic one, typical for stubbed harnesses) is NOT a reproduction
+    panics = re.findall(r"panicked at ([^\n]*)", o)
+    real = [x for x in panics if "concrete_playback.rs" not in x]
+    out["reproduced"] = bool(real)
     return out
